@@ -86,8 +86,9 @@ def bit_chain_ok(F, tp, ty):
     """F is a chain of len(tp)-1 TIF markers: marker t at tp[t] with type ty[t] (little-endian words type, previous, next),
     next == tp[t+1], payload between; tp[len(tp)-1] is the end of the last payload, where fewer than 12 bytes remain"""
     return (len(tp) >= 1 and tp[0] == 0 and len(ty) == len(tp) - 1 and tp[len(tp) - 1] <= len(F) and len(F) - tp[len(tp) - 1] < 12
+            # (triggered by ty[t] only: the clause mentions tp[t + 1], so a trigger on tp[t] would instantiate itself for ever)
             and forall(0, len(tp) - 1, lambda t: tp[t] >= 0 and tp[t] + 12 <= tp[t + 1] and tp[t + 1] <= len(F)
-                       and tif_le32(F, tp[t]) == ty[t] and tif_le32(F, tp[t] + 8) == tp[t + 1], trigger=lambda t: [tp[t]]))
+                       and tif_le32(F, tp[t]) == ty[t] and tif_le32(F, tp[t] + 8) == tp[t + 1], trigger=lambda t: [ty[t]]))
 
 def bit_eof(ty, t):
     """marker t ends the file: it is not a data marker and neither is the one before it"""
@@ -100,8 +101,10 @@ def register_tif_walk(reg):
     FOB = KRec('BinaryIO', data=Bytes, pos=Int)
     TMB = KRec('TifMarkedBytes', tell=Int, tif_type=Int, payload=Bytes)
     N = '(len(tp) - 1)'
-    BLOCK = ('out[j].tell == tp[j] and out[j].tif_type == (1 if ty[j] == 0 else 2) and len(out[j].payload) == tp[j + 1] - tp[j] - 12'
-             ' and forall(0, len(out[j].payload), lambda i: out[j].payload[i] == file.data[tp[j] + 12 + i])')
+    BLOCK = 'out[j].tell == tp[j] and out[j].tif_type == (1 if ty[j] == 0 else 2) and len(out[j].payload) == tp[j + 1] - tp[j] - 12'
+    # payload bytes: a flat two-variable clause with its own trigger (a quantifier nested in a quantifier is much harder to use)
+    BYTES = ('forall_n(lambda j, i: implies(0 <= j and j < %s and 0 <= i and i < len(out[j].payload), out[j].payload[i] == file.data[tp[j] + 12 + i]),'
+             ' trigger=lambda j, i: out[j].payload[i])')
     reg.add(Contract(
         BIT, 'yield_tif_blocks', {'file': FOB}, ghost={'tp': KView(Int), 'ty': KView(Int), 'stop': Int},
         requires=['bit_chain_ok(file.data, tp, ty)', '0 <= stop and stop <= %s' % N,
@@ -111,14 +114,14 @@ def register_tif_walk(reg):
         # one block per marker up to and including the end-of-file marker, with the marker's position, kind and payload bytes;
         # when the markers run out without one, a final empty END_FILE block at the end of the data
         ensures=['len(out) == stop + 1',
-                 'forall(0, stop, lambda j: %s)' % BLOCK,
+                 'forall(0, stop, lambda j: %s)' % BLOCK, BYTES % 'stop',
                  'out[stop].tif_type == 3', 'out[stop].tell == tp[stop]',
                  'implies(stop == %s, len(out[stop].payload) == 0)' % N,
                  'implies(stop < %s, len(out[stop].payload) == tp[stop + 1] - tp[stop] - 12)' % N],
         loops=[Loop('while True', invariants=[
             'len(out) <= stop', 'file.pos == tp[len(out)]',
             'tif_prev.next == (0 if len(out) == 0 else tp[len(out)])', 'tif_prev.type == (0 if len(out) == 0 else ty[len(out) - 1])',
-            'forall(0, len(out), lambda j: %s)' % BLOCK])],
+            'forall(0, len(out), lambda j: %s)' % BLOCK, BYTES % 'len(out)'])],
         canaries=['len(out) == 1', 'len(out) == 2'], crosscheck=False, timeout=40))
 
 
